@@ -17,6 +17,7 @@ package main
 
 import (
 	"fmt"
+	"os"
 	"go/constant"
 	"go/token"
 	"go/types"
@@ -347,6 +348,15 @@ func (e *emitCtx) devirtualise(call *ssa.Call, look func(ssa.Value) ssa.Value) s
 		switch cv := look(cur.Call.Value).(type) {
 		case *ssa.Function, *ssa.MakeClosure:
 			rewrite(cv, append([]ssa.Value(nil), cur.Call.Args...))
+		}
+	default:
+		// a function value that only changed its type name on the way (`iter.Seq[T]` <- the closure an iterator constructor
+		// returned, once that constructor has been inlined): call the closure itself
+		if ct, isCT := look(cur.Call.Value).(*ssa.ChangeType); isCT {
+			switch cv := ct.X.(type) {
+			case *ssa.Function, *ssa.MakeClosure:
+				rewrite(cv, append([]ssa.Value(nil), cur.Call.Args...))
+			}
 		}
 	}
 	if mc, isMC := cur.Call.Value.(*ssa.MakeClosure); isMC && len(mc.Bindings) == 1 {
@@ -704,6 +714,7 @@ func (c *Ctx) canonicaliseOnce(depth int) *canonStats {
 	}
 	// closures that were inlined where they are called leave a MakeClosure nobody uses; the cells they captured are then
 	// plain locals again and are promoted to registers, as ssa's own lifting pass would have done
+	st.unrolled += c.localiseGlobalTables()
 	for _, f := range c.ModFuncs {
 		if len(f.Blocks) == 0 {
 			continue
@@ -719,6 +730,7 @@ func (c *Ctx) canonicaliseOnce(depth int) *canonStats {
 			np := promoteLocals(f)
 			np += splitFuncPhiCalls(f)
 			np += splitPhiReturns(f)
+			np += retargetThunkCalls(f)
 			nt := 0
 			if !noThread[shortPkg(fnPkgPath(f))] {
 				nt = threadJumps(f)
@@ -798,6 +810,436 @@ func (c *Ctx) canonicaliseOnce(depth int) *canonStats {
 	c.ModFuncs = kept
 	sort.Strings(st.absorbedNames)
 	return st
+}
+
+// retargetThunkCalls: a static call of the wrapper go/ssa makes for a method expression (`(*App).format` used as a plain function
+// value: "thunk for ...") becomes a call of the method itself; the wrapper only passes its parameters on in order.
+func retargetThunkCalls(f *ssa.Function) int {
+	n := 0
+	for _, b := range f.Blocks {
+		for _, in := range b.Instrs {
+			call, ok := in.(*ssa.Call)
+			if !ok || call.Call.IsInvoke() {
+				continue
+			}
+			g, ok := call.Call.Value.(*ssa.Function)
+			if !ok || !strings.HasPrefix(g.Synthetic, "thunk for") || len(g.Blocks) != 1 {
+				continue
+			}
+			var inner *ssa.Call
+			okShape := true
+			for _, gi := range g.Blocks[0].Instrs {
+				switch x := gi.(type) {
+				case *ssa.Call:
+					if inner != nil {
+						okShape = false
+					}
+					inner = x
+				case *ssa.Return, *ssa.Extract:
+				default:
+					okShape = false
+				}
+			}
+			if !okShape || inner == nil || inner.Call.IsInvoke() {
+				continue
+			}
+			target, isFn := inner.Call.Value.(*ssa.Function)
+			if !isFn || len(inner.Call.Args) != len(g.Params) {
+				continue
+			}
+			same := true
+			for i, a := range inner.Call.Args {
+				if a != ssa.Value(g.Params[i]) {
+					same = false
+				}
+			}
+			if !same {
+				continue
+			}
+			call.Call.Value = target
+			n++
+		}
+	}
+	return n
+}
+
+// localiseGlobalTables: a package-level slice variable of the module that is stored exactly once - by its package's initialiser,
+// with a composite literal whose elements are constants, functions and closures that capture nothing - that is unexported, whose
+// address is never taken and whose elements are never written, is a constant table. Every load of it is replaced by a fresh copy of
+// the literal built on the spot, so that a loop over `var actions = []action{{flagA, doA}, {flagB, doB}}` analyses like a loop over the
+// same local literal (unrolling and the second inlining pass then turn it into the chain of ifs it stands for).
+func (c *Ctx) localiseGlobalTables() int {
+	type ginfo struct {
+		stores  []*ssa.Store
+		loads   []*ssa.UnOp
+		escapes bool
+	}
+	gl := map[*ssa.Global]*ginfo{}
+	get := func(g *ssa.Global) *ginfo {
+		if gl[g] == nil {
+			gl[g] = &ginfo{}
+		}
+		return gl[g]
+	}
+	for _, f := range c.ModFuncs {
+		for _, b := range f.Blocks {
+			for _, in := range b.Instrs {
+				for _, op := range in.Operands(nil) {
+					g, ok := (*op).(*ssa.Global)
+					if !ok || g.Pkg == nil || !strings.HasPrefix(g.Pkg.Pkg.Path(), modPath) {
+						continue
+					}
+					inf := get(g)
+					switch x := in.(type) {
+					case *ssa.Store:
+						if x.Addr == ssa.Value(g) && x.Val != ssa.Value(g) {
+							inf.stores = append(inf.stores, x)
+						} else {
+							inf.escapes = true
+						}
+					case *ssa.UnOp:
+						if x.Op == token.MUL && x.X == ssa.Value(g) {
+							inf.loads = append(inf.loads, x)
+						} else {
+							inf.escapes = true
+						}
+					default:
+						inf.escapes = true
+					}
+				}
+			}
+		}
+	}
+	n := 0
+	allInit := map[*ssa.Global][]*ssa.Store{}
+	for g, inf := range gl {
+		dbg := func(why string) {
+			if os.Getenv("SPOKCHECK_DEBUG_TABLES") != "" {
+				fmt.Fprintf(os.Stderr, "table %s: %s\n", g.Name(), why)
+			}
+		}
+		// package initialisers call one another and are inlined into one another: the copies of the one store are the same store
+		{
+			var own []*ssa.Store
+			foreign := false
+			for _, s0 := range inf.stores {
+				switch {
+				case s0.Parent() != nil && s0.Parent().Name() == "init" && s0.Parent().Pkg == g.Pkg:
+					own = append(own, s0)
+				case s0.Parent() != nil && s0.Parent().Name() == "init" && s0.Parent().Synthetic != "":
+				default:
+					foreign = true
+				}
+			}
+			if !foreign && len(own) == 1 {
+				allInit[g] = inf.stores
+				inf.stores = own
+			}
+		}
+		if inf.escapes || len(inf.stores) != 1 || len(inf.loads) == 0 || token_IsExported(g.Name()) {
+			if _, isSlice := deref(g.Type()).Underlying().(*types.Slice); isSlice {
+				dbg(fmt.Sprintf("escapes=%v stores=%d loads=%d", inf.escapes, len(inf.stores), len(inf.loads)))
+			}
+			continue
+		}
+		if _, isSlice := deref(g.Type()).Underlying().(*types.Slice); !isSlice {
+			continue
+		}
+		st := inf.stores[0]
+		if st.Parent() == nil || st.Parent().Name() != "init" {
+			continue
+		}
+		sl, ok := st.Val.(*ssa.Slice)
+		if !ok || sl.Low != nil || sl.High != nil || sl.Max != nil {
+			continue
+		}
+		arr, ok := sl.X.(*ssa.Alloc)
+		if !ok || arr.Block() != st.Block() {
+			continue
+		}
+		// the instructions that build the literal, in block order
+		cone := map[ssa.Value]bool{arr: true}
+		// pre-pass: element values assembled in a local composite literal and copied whole into their slot (`*slot = *complit`)
+		{
+			addrs := map[ssa.Value]bool{arr: true}
+			for _, in := range st.Block().Instrs {
+				switch x := in.(type) {
+				case *ssa.IndexAddr:
+					if addrs[x.X] {
+						addrs[x] = true
+					}
+				case *ssa.FieldAddr:
+					if addrs[x.X] {
+						addrs[x] = true
+					}
+				}
+			}
+			for _, in := range st.Block().Instrs {
+				if s2, isSt := in.(*ssa.Store); isSt && addrs[s2.Addr] {
+					if ld, isLd := s2.Val.(*ssa.UnOp); isLd && ld.Op == token.MUL {
+						if a, isA := ld.X.(*ssa.Alloc); isA && a.Block() == st.Block() && a != arr {
+							cone[a] = true
+						}
+					}
+				}
+			}
+		}
+		var seq []ssa.Instruction
+		okLit := true
+		plain := func(v ssa.Value) bool {
+			for {
+				switch x := v.(type) {
+				case *ssa.Const, *ssa.Function:
+					return true
+				case *ssa.MakeClosure:
+					return len(x.Bindings) == 0
+				case *ssa.ChangeType:
+					v = x.X
+					continue
+				case *ssa.MakeInterface:
+					v = x.X
+					continue
+				}
+				return false
+			}
+		}
+		for _, in := range st.Block().Instrs {
+			switch x := in.(type) {
+			case *ssa.Alloc:
+				if cone[x] {
+					seq = append(seq, in)
+				}
+			case *ssa.UnOp:
+				if x.Op == token.MUL && cone[x.X] {
+					if _, isA := x.X.(*ssa.Alloc); isA && x.X != ssa.Value(arr) {
+						cone[x] = true // the whole element value, about to be copied into its slot
+						seq = append(seq, in)
+					} else {
+						okLit = false
+					}
+				}
+			case *ssa.IndexAddr:
+				if cone[x.X] {
+					if _, isC := constInt(x.Index); !isC {
+						okLit = false
+					}
+					cone[x] = true
+					seq = append(seq, in)
+				}
+			case *ssa.FieldAddr:
+				if cone[x.X] {
+					cone[x] = true
+					seq = append(seq, in)
+				}
+			case *ssa.Store:
+				if cone[x.Addr] {
+					if !plain(x.Val) && !cone[x.Val] {
+						okLit = false
+					}
+					if mc, isMC := x.Val.(*ssa.MakeClosure); isMC {
+						_ = mc
+					}
+					seq = append(seq, in)
+				} else if cone[x.Val] {
+					okLit = false
+				}
+			case *ssa.Slice:
+				if x == sl {
+					seq = append(seq, in)
+				} else if cone[x.X] {
+					okLit = false
+				}
+			case *ssa.MakeClosure, *ssa.ChangeType, *ssa.MakeInterface:
+				// cloned on demand below when a store of the literal uses them
+			default:
+				for _, op := range in.Operands(nil) {
+					if *op != nil && cone[*op] {
+						okLit = false
+					}
+				}
+			}
+		}
+		if !okLit {
+			dbg("literal not plain")
+			continue
+		}
+		// nobody writes an element through a loaded copy
+		writes := false
+		for _, ld := range inf.loads {
+			users := usersOf(ld.Parent())
+			var walk func(v ssa.Value, depth int)
+			walk = func(v ssa.Value, depth int) {
+				if depth > 4 {
+					writes = true
+					return
+				}
+				for _, u := range users[v] {
+					switch x := u.(type) {
+					case *ssa.IndexAddr:
+						if x.X == v {
+							for _, u2 := range users[x] {
+								if s2, isSt := u2.(*ssa.Store); isSt && s2.Addr == ssa.Value(x) {
+									writes = true
+								}
+								if fa, isFA := u2.(*ssa.FieldAddr); isFA {
+									for _, u3 := range users[fa] {
+										if s3, isSt := u3.(*ssa.Store); isSt && s3.Addr == ssa.Value(fa) {
+											writes = true
+										}
+									}
+								}
+							}
+						}
+					case *ssa.Slice:
+						if x.X == v {
+							walk(x, depth+1)
+						}
+					case *ssa.Phi:
+						walk(x, depth+1)
+					case *ssa.Call:
+						// passed on (sort, append, a helper): not a constant table for our purposes
+						if bi, isB := x.Call.Value.(*ssa.Builtin); !isB || (bi.Name() != "len" && bi.Name() != "cap") {
+							writes = true
+						}
+					case *ssa.Store:
+						if x.Val == v {
+							writes = true
+						}
+					case *ssa.MakeClosure, *ssa.Return, *ssa.MakeInterface, *ssa.Send, *ssa.MapUpdate:
+						writes = true
+					}
+				}
+			}
+			walk(ld, 0)
+		}
+		if writes {
+			dbg("written or passed on")
+			continue
+		}
+		dbg(fmt.Sprintf("localised at %d loads, %d instructions each", len(inf.loads), len(seq)))
+		for _, ld := range inf.loads {
+			f := ld.Parent()
+			if f == st.Parent() {
+				continue
+			}
+			m := map[ssa.Value]ssa.Value{}
+			var cloneVal func(v ssa.Value) ssa.Value
+			cloneVal = func(v ssa.Value) ssa.Value {
+				if nv, ok := m[v]; ok {
+					return nv
+				}
+				switch x := v.(type) {
+				case *ssa.MakeClosure, *ssa.ChangeType, *ssa.MakeInterface:
+					in := x.(ssa.Instruction)
+					cl := cloneInstr(in)
+					for _, op := range cl.Operands(nil) {
+						if *op != nil {
+							*op = cloneVal(*op)
+						}
+					}
+					insertBeforeInstr(ld.Block(), ld, cl)
+					m[v] = cl.(ssa.Value)
+					return cl.(ssa.Value)
+				}
+				return v
+			}
+			for _, in := range seq {
+				cl := cloneInstr(in)
+				for _, op := range cl.Operands(nil) {
+					if *op != nil {
+						*op = cloneVal(*op)
+					}
+				}
+				insertBeforeInstr(ld.Block(), ld, cl)
+				if v, isV := in.(ssa.Value); isV {
+					m[v] = cl.(ssa.Value)
+				}
+				if a, isA := cl.(*ssa.Alloc); isA {
+					f.Locals = append(f.Locals, a)
+				}
+			}
+			repl := m[sl]
+			for _, b := range f.Blocks {
+				for _, in := range b.Instrs {
+					for _, op := range in.Operands(nil) {
+						if *op == ssa.Value(ld) {
+							*op = repl
+						}
+					}
+				}
+			}
+			removeInstrs(f, map[ssa.Instruction]bool{ld: true})
+			n++
+		}
+		// nothing reads the variable any more: its construction in the initialiser (and in the copies of the initialiser that
+		// inlining put into other initialisers) is dead, and so are the closures it alone referred to
+		stores := allInit[g]
+		if len(stores) == 0 {
+			stores = inf.stores
+		}
+		for _, s0 := range stores {
+			dead := map[ssa.Instruction]bool{s0: true}
+			if sl0, isSl := s0.Val.(*ssa.Slice); isSl {
+				if arr0, isA := sl0.X.(*ssa.Alloc); isA {
+					live := map[ssa.Value]bool{arr0: true}
+					users := usersOf(s0.Parent())
+					// element literals copied whole into a slot
+					for _, in := range s0.Block().Instrs {
+						if s2, isSt := in.(*ssa.Store); isSt {
+							if ld2, isLd := s2.Val.(*ssa.UnOp); isLd && ld2.Op == token.MUL {
+								if a2, isA2 := ld2.X.(*ssa.Alloc); isA2 {
+									base := s2.Addr
+									for {
+										if ia, ok := base.(*ssa.IndexAddr); ok {
+											base = ia.X
+											continue
+										}
+										if fa, ok := base.(*ssa.FieldAddr); ok {
+											base = fa.X
+											continue
+										}
+										break
+									}
+									if base == ssa.Value(arr0) {
+										live[a2] = true
+									}
+								}
+							}
+						}
+					}
+					for changed := true; changed; {
+						changed = false
+						for v := range live {
+							for _, u := range users[v] {
+								switch x := u.(type) {
+								case *ssa.IndexAddr, *ssa.FieldAddr, *ssa.Slice, *ssa.UnOp:
+									if !live[x.(ssa.Value)] {
+										live[x.(ssa.Value)] = true
+										changed = true
+									}
+									dead[u] = true
+								case *ssa.Store:
+									dead[u] = true
+								}
+							}
+						}
+					}
+					for v := range live {
+						if in, isIn := v.(ssa.Instruction); isIn {
+							dead[in] = true
+						}
+					}
+				}
+			}
+			removeInstrs(s0.Parent(), dead)
+			for i := 0; i < 3; i++ {
+				if dropDeadClosures(s0.Parent()) == 0 {
+					break
+				}
+			}
+		}
+	}
+	return n
 }
 
 // isMethodOfInterfaceImpl: f may be called through an interface (then a static-call census says nothing).
